@@ -94,6 +94,11 @@ Fixpoint pipeline_value (hs : list (string * string)) (k : string) : option stri
   | (n, v) :: r => if String.eqb (canon_key n) k then Some v else pipeline_value r k
   end.
 
+(** all values the pipeline produced for [k], in order ([all] = false: only the
+    first, the behaviour before C13-F3 was repaired) *)
+Definition pipeline_values (all : bool) (hs : list (string * string)) (k : string) : list string :=
+  if all then line_values k hs else match pipeline_value hs k with Some v => [v] | None => [] end.
+
 Definition forwarding_active (hin : header) : bool :=
   negb (is_empty (h_get "X-Forwarded-For" hin)) || negb (is_empty (h_get "X-Forwarded-Proto" hin)) ||
   negb (is_empty (h_get "X-Forwarded-Host" hin)).
@@ -143,16 +148,13 @@ Definition passed_on (hin : header) (k : string) : list string :=
     one that is never passed.  Cookies of the pipeline are appended to the Cookie
     field.  [pipeline_first] says who wins when the pipeline itself produced a
     forwarding header: the property text says the pipeline (true). *)
-Definition handed_over (pipeline_first : bool) (q : request) (pl : pipeline) (k : string) : list string :=
+Definition handed_over (all pipeline_first : bool) (q : request) (pl : pipeline) (k : string) : list string :=
   let hin := in_headers q in
-  let base :=
-    match pipeline_value (p_headers pl) k with
-    | Some v => [v]
-    | None => passed_on hin k
-    end in
+  let pvs := pipeline_values all (p_headers pl) k in
+  let base := if is_nil pvs then passed_on hin k else pvs in
   let base :=
     match forwarding_value q k with
-    | Some v => if pipeline_first then match pipeline_value (p_headers pl) k with Some pv => [pv] | None => [v] end else [v]
+    | Some v => if pipeline_first && negb (is_nil pvs) then pvs else [v]
     | None => base
     end in
   if String.eqb k "Cookie" && negb (is_nil (p_cookies pl))
@@ -163,8 +165,8 @@ Definition handed_over (pipeline_first : bool) (q : request) (pl : pipeline) (k 
     http.Transport are part of the expectation: only the first User-Agent value is
     written (none if it is empty), and `Accept-Encoding: gzip` is added to a non-HEAD
     request that has neither Accept-Encoding nor Range. *)
-Definition expected_values (pipeline_first : bool) (q : request) (pl : pipeline) (method : string) (k : string) : list string :=
-  let ho := handed_over pipeline_first q pl in
+Definition expected_values (all pipeline_first : bool) (q : request) (pl : pipeline) (method : string) (k : string) : list string :=
+  let ho := handed_over all pipeline_first q pl in
   if String.eqb k "User-Agent" then
     (if is_empty (first_or_empty (ho k)) then [] else [first_or_empty (ho k)])
   else if String.eqb k "Accept-Encoding" then
@@ -179,9 +181,9 @@ Definition relevant_names (q : request) (pl : pipeline) (obs : header) : list st
    ["Forwarded"; "X-Forwarded-For"; "X-Forwarded-Host"; "X-Forwarded-Proto";
     "X-Forwarded-Method"; "X-Forwarded-Uri"; "X-Forwarded-Path"; "Cookie"; "User-Agent"; "Accept-Encoding"])%list.
 
-Definition headers_ok (pipeline_first : bool) (q : request) (pl : pipeline) (method : string) (obs : header) : bool :=
+Definition headers_ok (all pipeline_first : bool) (q : request) (pl : pipeline) (method : string) (obs : header) : bool :=
   forallb (fun k => String.eqb k "Host" ||
-                    list_eqb String.eqb (h_values k obs) (expected_values pipeline_first q pl method k))
+                    list_eqb String.eqb (h_values k obs) (expected_values all pipeline_first q pl method k))
           (relevant_names q pl obs).
 
 Definition expected_host (pl : pipeline) (r : rule) : string :=
@@ -218,7 +220,7 @@ Definition spec_ok (q : request) (pl : pipeline) (r : rule) (o : outcome) : bool
       String.eqb method (q_method q) &&
       String.eqb body (q_body q) &&
       String.eqb host (expected_host pl r) &&
-      headers_ok true q pl method hs
+      headers_ok true true q pl method hs
     end
   end.
 
